@@ -53,7 +53,11 @@ mutual
 /-- `none` = keep what is there, `some x` = store x -/
 def combineV (old : Option Val) (v : Val) : Outcome (Option Val) :=
   match v with
-  | .prim .nil => .ok none
+  | .prim .nil =>
+    -- a null adds nothing to a name that exists, and makes a name exist that does not (as it does when visited first)
+    match old with
+    | none => .ok (some Val.nilV)
+    | some _ => .ok none
   | .sub d2 a2 hd2 ha2 =>
     match old with
     | none => .ok (some (cpy (.sub d2 a2 hd2 ha2)))
@@ -87,6 +91,13 @@ def combineA (i : Nat) (a1 : List Val) (a2 : List Val) : Outcome (List Val) :=
 termination_by structural a2
 end
 
+/-- merge.go viaPrimitive: the path finds its value by reading index 0 of a primitive (which reads as the primitive itself) -/
+def viaPrimitive (p : List Field) (cfg : Val) : Bool :=
+  if p.length < 2 then false
+  else match pathGet tcPlain p.dropLast cfg with
+    | .ok (some v) => !v.isNilPrim && !v.isSub
+    | _ => false
+
 /-- merge.go normalizeSetField, given the already normalized value -/
 def setField (o : Opts) (cfg : Val) (name : String) (val : Val) : Outcome Val :=
   let p := parsePathOpts name o
@@ -104,7 +115,8 @@ def setField (o : Opts) (cfg : Val) (name : String) (val : Val) : Outcome Val :=
   | .panic s => .panic s
   | .fuel => .fuel
   | .ok old =>
-    if !Val.isNilOpt old && val.isNilPrim then .ok cfg
+    if !Val.isNilOpt old && val.isNilPrim then
+      (if viaPrimitive p cfg then raise .duplicateKey else .ok cfg)
     else if Val.isNilOpt old then
       match pathSet tcPlain o p cfg val with
       | .err e => if e.reason = .expectedObject then raise .duplicateKey else .err e
